@@ -1110,7 +1110,7 @@ func (w *World) descTooBig(x *MMan, d string, limit int64) bool {
 func (w *World) checkDesc(x *MMan, d string, g descJSON) {
 	e := w.expectedDesc(x, d)
 	var diffs []string
-	if g.MediaType != e.MediaType {
+	if g.MediaType != e.MediaType && !(x.untyped && x.mts[g.MediaType]) {
 		diffs = append(diffs, fmt.Sprintf("mediaType %q want %q", g.MediaType, e.MediaType))
 	}
 	if g.Size != e.Size {
